@@ -1,6 +1,8 @@
 """C07 - absent keys take defaults, present keys always win."""
 from __future__ import annotations
 
+import collections
+import copy
 import dataclasses
 import datetime
 import decimal
@@ -37,6 +39,16 @@ TYPES = {
     "oint": ("Optional[int]", [(5, 5), (None, None)], lambda n: (str(n), n) if n % 3 else ("None", None)),
     "odate": ("Optional[datetime.date]", [("2020-01-02", D(2020, 1, 2)), (None, None)],
               lambda n: (f"datetime.date(2001, 1, {n % 28 + 1})", D(2001, 1, n % 28 + 1)) if n % 3 else ("None", None)),
+    # nullable fields whose default is falsy but not None: an explicit null is still a present key
+    "oint0": ("Optional[int]", [(5, 5), (None, None), (None, None)], lambda n: ("0", 0)),
+    "ostr0": ("Optional[str]", [("x", "x"), (None, None), (None, None)], lambda n: ("''", "")),
+    "obool0": ("Optional[bool]", [(True, True), (None, None), (None, None)], lambda n: ("False", False)),
+    "otd0": ("Optional[datetime.timedelta]", [(1.5, datetime.timedelta(seconds=1.5)), (None, None), (None, None)],
+             lambda n: ("datetime.timedelta(0)", datetime.timedelta(0))),
+    # TypedDict with optional keys: keys absent from the input stay absent, also when the input mapping answers
+    # subscription of absent keys itself (defaultdict)
+    "tdopt": ("TDopt", [({"p": 1}, {"p": 1}), (collections.defaultdict(lambda: "FALLBACK", {"q": "s"}), {"q": "s"}), ({}, {}),
+                        (collections.defaultdict(lambda: 7, {}), {})], lambda n: ("{'p': %d}" % n, {"p": n})),
     "any": ("Any", [(None, None), ([1], [1])], lambda n: (repr(f"a{n}"), f"a{n}") if n % 2 else ("None", None)),
     "uoint": ("Union[int, str, None]", [(3, 3), ("s", "s"), (None, None)], lambda n: (str(n), n)),
 }
@@ -196,6 +208,8 @@ def run_case(seed, tier, rec, st):
                 body.append("    class Config(BaseConfig):")
                 body += [f"        {c}" for c in cfg]
             src += body or ["    pass"]
+        if any(f.get("tk") == "tdopt" for b in bodies for f in b) or any(o.get("tk") == "tdopt" for o in overrides):
+            src.insert(0, "class TDopt(TypedDict, total=False):\n    p: int\n    q: str")
         try:
             fam.exec_src("\n".join(src) + "\n")
         except Exception as e:
@@ -263,6 +277,8 @@ def run_case(seed, tier, rec, st):
                 alias = f.get("alias")
                 if present:
                     wire, val = rng.choice(wires)
+                    if isinstance(wire, dict):
+                        wire = copy.copy(wire)       # a mutated defaultdict must not leak into later inputs
                     if alias and allow:
                         how = rng.choice(["alias", "name", "both"])
                         if how in ("alias", "both"):
